@@ -55,10 +55,31 @@ Proof.
   reflexivity.
 Qed.
 
+(* ---- abbreviated matrices (J placeholders): C04 proves what normalize_matrix
+   makes of them (C04_normalize_matrix_{6,6_cols,3,3_cols,5}_reproduces: a proper
+   rotation b agreeing with every supplied entry) and that adjust_matrix leaves
+   an orthonormal clipped matrix alone; together, the card's transformation ---- *)
+Theorem abbreviated_card (o : S4.R3) (pat : V4.M3 (option R)) (b : V4.M3 R) :
+  M4.normalize_matrix RS (V4.mlist pat) = M4.Ok (V4.mlist b) ->
+  S4.rows_orthonormal b -> T4V.C04.ProofsMatrix.clip_ok_m b ->
+  M4.tr_card RS false (map Some (V4.vlist o) ++ V4.mlist pat) = M4.Ok (V4.vlist o ++ V4.mlist b).
+Proof.
+  intros E9 Hb Hc. pose proof (T4V.C04.ProofsMatrix.adjust_matrix_fixpoint b Hb Hc) as Ea.
+  destruct o as [o1 o2 o3], pat as [[p1 p2 p3] [p4 p5 p6] [p7 p8 p9]],
+           b as [[b1 b2 b3] [b4 b5 b6] [b7 b8 b9]].
+  unfold M4.tr_card, M4.mip_normalize.
+  cbv [V4.mlist V4.vlist V4.vx V4.vy V4.vz app map] in E9, Ea |- *.
+  cbn [List.length Nat.eqb]. unfold M4.normalize_transform.
+  cbn [List.length Nat.eqb andb firstn skipn]. rewrite E9. cbn [M4.bind].
+  rewrite Ea. cbn [M4.bind M4.values M4.rmap app]. reflexivity.
+Qed.
+
 (* ---- well-formed transformation sources (C04's theorems) ---- *)
 (* a TR card with 12 (or 13, m = 1) entries whose matrix has orthonormal rows
    and no entry in (0, 1e-10) (clip_ok_m), unstarred or starred (angles in
-   degrees); a TR card with 3 entries; an inline TRCL / FILL with 12 entries *)
+   degrees); a TR card with 3 entries; an inline TRCL / FILL with 12 entries; a TR
+   card whose matrix is abbreviated with J placeholders and completed by
+   normalize_matrix to b *)
 Definition card_gives (l : list R) (o : S4.R3) (b : V4.M3 R) : Prop :=
   S4.rows_orthonormal b /\
   ( (T4V.C04.ProofsMatrix.clip_ok_m b /\
@@ -74,7 +95,13 @@ Definition card_gives (l : list R) (o : S4.R3) (b : V4.M3 R) : Prop :=
        (M4.tr_card RS true (map Some (V4.vlist o ++ V4.mlist ang)) = M4.Ok l \/
         M4.tr_card RS true (map Some (V4.vlist o ++ V4.mlist ang ++ [1])) = M4.Ok l))
     \/
-    (b = V4.idm RS /\ exists star, M4.tr_card RS star (map Some (V4.vlist o)) = M4.Ok l) ).
+    (b = V4.idm RS /\ exists star, M4.tr_card RS star (map Some (V4.vlist o)) = M4.Ok l)
+    \/
+    (* abbreviated matrix: pat holds the supplied entries, None for a J *)
+    (T4V.C04.ProofsMatrix.clip_ok_m b /\
+     exists pat : V4.M3 (option R),
+       M4.normalize_matrix RS (V4.mlist pat) = M4.Ok (V4.mlist b) /\
+       M4.tr_card RS false (map Some (V4.vlist o) ++ V4.mlist pat) = M4.Ok l) ).
 
 Theorem card_transformation (l : list R) (o : S4.R3) (b : V4.M3 R) :
   card_gives l o b ->
@@ -82,7 +109,7 @@ Theorem card_transformation (l : list R) (o : S4.R3) (b : V4.M3 R) :
 Proof.
   intros (Hr & H). split; [|now apply orthogonal_of_c04].
   assert (E : l = V4.vlist o ++ V4.mlist b); [|rewrite E; apply transf_of_list_c04].
-  destruct H as [(Hc & H) | [(Hc & ang & -> & H) | (-> & star & H)]].
+  destruct H as [(Hc & H) | [(Hc & ang & -> & H) | [(-> & star & H) | (Hc & pat & E9 & H)]]].
   - pose proof (T4V.C04.ProofsCard.tr_card_12 o b Hr Hc) as (E1 & E2).
     destruct H as [H | [H | [(trs & trid & H) | [(trs & trid & H) | (trs & trid & H)]]]];
       try (pose proof (T4V.C04.ProofsCard.inline_12 o b trs trid Hr Hc) as (I1 & I2 & I3));
@@ -90,4 +117,54 @@ Proof.
   - pose proof (T4V.C04.ProofsCard.tr_card_star_12 o ang Hr Hc) as (E1 & E2).
     destruct H as [H | H]; congruence.
   - pose proof (T4V.C04.ProofsCard.tr_card_3 star o) as E1. congruence.
+  - pose proof (abbreviated_card o pat b E9 Hr Hc) as E1. congruence.
+Qed.
+
+(* non-vacuity: the card  TR  1 -2 0.5   0.6 0.8 0  -0.8 0.6 0  0 0 1 *)
+Example card_gives_example :
+  let o := V4.mkV 1 (-2) (1 / 2) in
+  let b := V4.mkV (V4.mkV (3 / 5) (4 / 5) 0) (V4.mkV (- 4 / 5) (3 / 5) 0) (V4.mkV 0 0 1) in
+  card_gives (V4.vlist o ++ V4.mlist b) o b.
+Proof.
+  cbv zeta.
+  assert (Hr : S4.rows_orthonormal
+                 (V4.mkV (V4.mkV (3 / 5) (4 / 5) 0) (V4.mkV (- 4 / 5) (3 / 5) 0) (V4.mkV 0 0 1))).
+  { unfold S4.rows_orthonormal, S4.dot. cbn. repeat split; field. }
+  assert (Hc : T4V.C04.ProofsMatrix.clip_ok_m
+                 (V4.mkV (V4.mkV (3 / 5) (4 / 5) 0) (V4.mkV (- 4 / 5) (3 / 5) 0) (V4.mkV 0 0 1))).
+  { unfold T4V.C04.ProofsMatrix.clip_ok_m, T4V.C04.ProofsMatrix.clip_ok3, T4V.C04.ProofsMatrix.clip_ok.
+    cbn.
+    assert (K : forall x, x = 0 \/ 1 / 2 <= x \/ x <= - (1 / 2) ->
+                          x = 0 \/ / 10000000000 <= Rabs x).
+    { intros x [H | [H | H]]; [now left | right; rewrite Rabs_right by lra; lra
+                               | right; rewrite Rabs_left by lra; lra]. }
+    split; [|split]; (split; [|split]); apply K; lra. }
+  split; [exact Hr|]. left. split; [exact Hc|]. left.
+  apply (T4V.C04.ProofsCard.tr_card_12 _ _ Hr Hc).
+Qed.
+
+Theorem abbreviated_card_transformation (o : S4.R3) (pat : V4.M3 (option R)) (b : V4.M3 R) :
+  M4.normalize_matrix RS (V4.mlist pat) = M4.Ok (V4.mlist b) ->
+  S4.rotation b -> T4V.C04.ProofsMatrix.clip_ok_m b ->
+  exists l, M4.tr_card RS false (map Some (V4.vlist o) ++ V4.mlist pat) = M4.Ok l /\
+            transf_of_list l = Some (transf_of_c04 o b) /\ orthogonal (transf_of_c04 o b).
+Proof.
+  intros E9 (Hb & _) Hc. exists (V4.vlist o ++ V4.mlist b).
+  split; [now apply abbreviated_card|]. split; [apply transf_of_list_c04 | now apply orthogonal_of_c04].
+Qed.
+
+(* e.g. a card giving only two rows of the matrix (six entries, three J): by
+   C04_normalize_matrix_6_reproduces the completed matrix is a proper rotation
+   that keeps the supplied rows, and the card's transformation is well formed *)
+Theorem six_entry_card (i : nat) (o r0 r1 : S4.R3) :
+  (i < 3)%nat -> S4.norm2 r0 = 1 -> S4.norm2 r1 = 1 -> S4.dot r0 r1 = 0 ->
+  let pat := M4.place3 i T4V.C04.ProofsMatrix.none3 (T4V.C04.ProofsMatrix.somev r0) (T4V.C04.ProofsMatrix.somev r1) in
+  exists b, S4.rotation b /\ S4.agrees pat b /\
+    (T4V.C04.ProofsMatrix.clip_ok_m b -> card_gives (V4.vlist o ++ V4.mlist b) o b).
+Proof.
+  intros Hi H0 H1 H01 pat.
+  destruct (T4V.C04.ProofsMatrix.normalize_matrix_6_rows i r0 r1 Hi H0 H1 H01) as (b & E & Hrot & Hag).
+  exists b. split; [exact Hrot|]. split; [exact Hag|]. intros Hc.
+  split; [exact (proj1 Hrot)|]. right. right. right. split; [exact Hc|].
+  exists pat. split; [exact E|]. apply abbreviated_card; [exact E | exact (proj1 Hrot) | exact Hc].
 Qed.
